@@ -8,9 +8,9 @@ rsync -a --exclude .git /repo/ "$D/"
 rm -f /tmp/revert.$$.diff
 rc=0
 for p in "$@"; do
-  out=$(cd /verif && VERIF_REPO="$D" ./check "$p" ${TIER:-quick} 2>&1); code=$?
+  out=$(cd /verif && VERIF_SCRATCH_TAG="$(basename "$D")" VERIF_REPO="$D" ./check "$p" ${TIER:-quick} 2>&1); code=$?
   echo "revert $C: $p exit=$code; first: $(echo "$out" | grep -m1 '^violation\|^crash\|^hang\|^data races' | cut -c1-200)"
   [ $code -eq 1 ] || rc=1
 done
-rm -rf "$D"
+rm -rf "$D" "/verif/.build/scratch-$(basename "$D")"
 exit $rc
